@@ -47,13 +47,35 @@ type Case struct {
 	Regime int              `json:"regime"`
 	Opts   chaingen.GenOpts `json:"opts"`
 	Plan   []Step           `json:"plan"`
+	// Extra: blocks added to the generated tree, in order (the new nodes get the next indices):
+	// {"corrupt-copy", i}: a sibling of node i with a valid header and an invalid body;
+	// {"on-invalid", i}: an empty header-valid block on top of node i (a block of an invalid chain)
+	Extra []ExtraBlock `json:"extra,omitempty"`
+}
+
+// ExtraBlock: see Case.Extra.
+type ExtraBlock struct {
+	Kind string `json:"kind"`
+	Of   int    `json:"of"`
 }
 
 // Tree regenerates the case's tree.
 func (c Case) Tree() *chaingen.Tree {
 	r := rng.New(c.Seed)
 	env := chaingen.NewEnv(r, c.Regime)
-	return chaingen.Gen(r, env, c.Opts)
+	t := chaingen.Gen(r, env, c.Opts)
+	for k, x := range c.Extra {
+		if x.Of < 0 || x.Of >= len(t.Nodes) {
+			continue
+		}
+		switch x.Kind {
+		case "corrupt-copy":
+			t.AddPayoutCorruptedCopyOf(t.Nodes[x.Of])
+		case "on-invalid":
+			t.AddOnInvalidAt(t.Nodes[x.Of], uint64(k)+1)
+		}
+	}
+	return t
 }
 
 // GenPlan interleaves a block-submission plan with pool submissions and mining.
